@@ -419,7 +419,10 @@ def _setup_pool_init(variant):
         kw = {"name": name} if variant != "unnamed" else {}
         if variant == "prefix given":
             kw["thread_name_prefix"] = sym_val(engine, st, "str", "prefix")
-        return [me], kw, {"me": me, "name": name, "sid": z3.IntVal(oid), "variant": variant, "kw": kw}
+        args = [me]
+        if variant == "named, max_workers positional":
+            args.append(sym_val(engine, st, "int", "max_workers"))        # thread_pool(4, name="x"): thread_name_prefix would be the SECOND positional
+        return args, kw, {"me": me, "name": name, "sid": z3.IntVal(oid), "variant": variant, "kw": kw}
     return setup
 
 
@@ -448,7 +451,7 @@ def _post_pool_init(engine, st, ctx, out):
         if kd is not None:
             known.update({k_: engine.to_val(st, v_) for k_, v_ in kd.known.items()})
         pref = known.get("thread_name_prefix")
-        if ctx["variant"] == "named":
+        if ctx["variant"].startswith("named"):
             is_default = ctx["name"].t == Val.strv(z3.IntVal(STRINGS.get("default")))
             want = Val.strv(str_format(z3.IntVal(STRINGS.get("ThreadPoolExecutor-%s")), ctx["name"].t))
             cl.append(("a named pool names its threads 'ThreadPoolExecutor-<name>' (the default name leaves the stdlib prefix alone)", "PC",
@@ -460,7 +463,7 @@ def _post_pool_init(engine, st, ctx, out):
     return cl
 
 
-for v in ("named", "prefix given", "unnamed"):
+for v in ("named", "named, max_workers positional", "prefix given", "unnamed"):
     UNITS.append(Unit("CustomizableThreadPoolExecutor.__init__[%s]" % v, "wrapped.CustomizableThreadPoolExecutor.__init__", ["C11", "C19", "C20"],
                       _setup_pool_init(v), _post_pool_init, cfg=lambda: make_cfg(concurrent=False), self_cls="CustomizableThreadPoolExecutor"))
 
